@@ -127,6 +127,10 @@ type hRelNamed struct {
 	R Relation
 	X int32
 }
+type hRelNamedSame struct {
+	Relation Relation // a field NAMED Relation is not an embedded ecs.Relation
+	X        int32
+}
 type hRelPtr struct {
 	*Relation
 }
@@ -145,8 +149,13 @@ func HC16_Shapes() {
 	e := ComponentID[hRelOnly](&w)
 	f := ComponentID[hRelPtr](&w)
 	g := ComponentID[hA](&w)
+	hn := ComponentID[hRelNamedSame](&w)
+	infoN, okN := ComponentInfo(&w, hn)
+	vAssert(okN && !infoN.IsRelation && int(hn.id) == base+7, "a first field merely named Relation does not make a relation component")
+	base++
 	all := [7]ID{a, b, c, d, e, f, g}
 	want := [7]bool{true, false, false, false, true, false, false}
+	base--
 	for i := 0; i < 7; i++ {
 		vAssert(int(all[i].id) == base+i, "ids are assigned densely in registration order")
 		info, ok := ComponentInfo(&w, all[i])
@@ -154,7 +163,8 @@ func HC16_Shapes() {
 	}
 	vAssert(ComponentID[hRelLater](&w) == b && ComponentID[hR1](&w) == a, "the same type always gets the same id")
 	vAssert(TypeID(&w, reflect.TypeOf(hRelNamed{})) == c, "TypeID and ComponentID agree")
-	vAssert(len(ComponentIDs(&w)) == base+7, "no duplicate registrations")
+	vAssert(len(ComponentIDs(&w)) == base+8, "no duplicate registrations")
+	base++
 	// only real relation components accept a target
 	p := w.NewEntity()
 	ok1, _ := vCatch(func() { NewBuilder(&w, a).WithRelation(a).New(p) })
